@@ -566,7 +566,12 @@ class Impl:
     def op_el_addArray(self, op):
         kw = {k: np.array([self.num(x) for x in v], dtype=float) for k, v in op.get("kw", [])}
         self._note_channel(op["id"], op["ch"], raw=True)
-        self.g(op["id"]).addArray(op["ch"], np.array([self.num(x) for x in op["wfm"]], dtype=float), self.v(op["SR"]), **kw)
+        wfm = np.array([self.num(x) for x in op["wfm"]], dtype=float)
+        if op.get("_dtype"):
+            # the same numbers in the container the caller happens to have them in (DAC counts, a table of small integers, a list)
+            wfm = wfm.tolist() if op["_dtype"] == "list" else wfm.astype(op["_dtype"])
+            kw = {k: (v.astype(bool) if op["_dtype"] != "list" else v.astype(int).tolist()) for k, v in kw.items()}
+        self.g(op["id"]).addArray(op["ch"], wfm, self.v(op["SR"]), **kw)
 
     def op_el_addFlags(self, op):
         self.g(op["id"]).addFlags(op["ch"], [self.v(x) for x in op["flags"]])
